@@ -1806,7 +1806,22 @@ class Lib:
         ctx.assume(z3.Length(o) >= ln - 1)
         return SymSeq(arr, ln, V.Str, fresh=True)
 
-    def m_str_encode(self, ctx, o, enc="utf8"):
+    def m_str_encode(self, ctx, o, enc="utf8", errors="strict"):
+        if errors != "strict":
+            # ASSUMED (CPython): with errors='ignore' the unencodable code points (surrogates) are dropped and nothing is
+            # raised; modelled as the encoding of SOME string without surrogates that is not longer than the original and
+            # equals it when the original has no surrogate (over-approximation: which characters survive is not tracked)
+            if errors != "ignore" or not isinstance(errors, str):
+                raise EngineLimit("str.encode with errors=%r" % (errors,))
+            ot = z3.StringVal(o) if isinstance(o, str) else o
+            kept = ctx.fresh("encoded_ignoring_errors", z3.StringSort())
+            j = z3.FreshConst(z3.IntSort(), "cj")
+            cd = lambda t, k: z3.StrToCode(z3.SubString(t, k, 1))
+            sur = lambda t: z3.Exists([j], z3.And(0 <= j, j < z3.Length(t), cd(t, j) >= 0xD800, cd(t, j) <= 0xDFFF))
+            ctx.assume(z3.Length(kept) <= z3.Length(ot))
+            ctx.assume(z3.Not(sur(kept)))
+            ctx.assume(z3.Implies(z3.Not(sur(ot)), kept == ot))
+            return V.BytesOf(kept)
         # ASSUMED (CPython): str.encode('utf8') raises UnicodeEncodeError iff the string contains a surrogate
         # code point (U+D800..U+DFFF); otherwise every code point < 0x80 becomes exactly one byte, others 2..4 bytes.
         if isinstance(o, str):
